@@ -100,7 +100,7 @@ def main():
         'setup_cmd': './setup.sh',
         'hooks': {
             'guard': 'verif',
-            'enable': 'go build -tags verif (harness module with replace => /repo); the only hook file is in_toto/verif_hooks*.go, add-only',
+            'enable': 'go build -tags verif (harness module with replace => /repo); hook files in_toto/verif_hooks.go and cmd/verif_hooks.go, add-only',
             'baseline_off_cmd': BASELINE_OFF,
             'source_commits': [l.strip() for l in open(os.path.join(ROOT, 'MANIFEST.hooks')) if l.strip() and not l.startswith('#')],
             'add_only': True,
